@@ -12,7 +12,8 @@ class Deadlock(Exception):
 
 
 class Scheduler(object):
-    def __init__(self, nthreads, prefix, watchdog_s=60.0):
+    def __init__(self, nthreads, prefix, watchdog_s=60.0, chooser=None):
+        self.chooser = chooser
         self.n = nthreads
         self.prefix = list(prefix)
         self.trace = []          # thread id chosen at each decision
@@ -55,7 +56,7 @@ class Scheduler(object):
                     return
                 enabled = sorted(self.waiting)
                 k = len(self.trace)
-                choice = self.prefix[k] if k < len(self.prefix) else enabled[0]
+                choice = self.prefix[k] if k < len(self.prefix) else (self.chooser(enabled, k) if self.chooser is not None else enabled[0])
                 if choice not in enabled:
                     raise Deadlock('schedule prefix asks for thread %r, enabled %r (nondeterministic step structure)' % (choice, enabled))
                 self.enabled_log.append(enabled)
@@ -68,9 +69,9 @@ class Scheduler(object):
                 self.cv.notify_all()
 
 
-def run_schedule(bodies, prefix, watchdog_s=60.0):
+def run_schedule(bodies, prefix, watchdog_s=60.0, chooser=None):
     """bodies: list of callables body(step) where step(who, op) is the step point.  Returns (scheduler, results, exceptions)."""
-    s = Scheduler(len(bodies), prefix, watchdog_s)
+    s = Scheduler(len(bodies), prefix, watchdog_s, chooser)
     results = [None] * len(bodies)
     excs = [None] * len(bodies)
 
